@@ -41,6 +41,12 @@ def segment_edits(ref, typ, segs, with_last=True, with_dstar=True):
             out.append(("seg", i, segs[i] + "*"))
             out.append(("seg", i, "*" + segs[i]))
             out.append(("seg", i, segs[i][:1] + "*" + segs[i][1:]))
+            # the other names of the generated universes as literal values: names with characters that mean something to a
+            # pattern language ('.', '+', '-') next to twins that differ only there
+            from mc import datagen
+            for nm in datagen.PREFIX_NAMES:
+                if nm != segs[i]:
+                    out.append(("seg", i, nm))
     for a in ref.alias:
         out.append(("seg", n - 1, a))
     if ref.alias:
